@@ -553,12 +553,48 @@ Definition axes_values_concatenation_statement : Prop :=
            then Ok (nth (c * n + i) arr (v_default v)) = cell_of_q v q
            else forall barr, (exists bh, aget (a_name a) (p_holders bpop) = Some bh /\ hget bh p = Some barr) ->
                   nth_error arr (c * n + i) = nth_error barr i).
-(* Proved: the entities at document level ([axes_entities_concatenation]) and the list functions
-   behind them ([axes_entities_partial]).  Missing for the values: the strided store
-   [set_strided] as "cell c of the array gets the c-th value at the axis index", and the
-   commutation of the flush with the repetition of the arrays (the set-input rules work element
-   by element).  The correspondence check compares every axes document with its expanded
-   copies, on the implementation and on the model. *)
+(* Proved: the entities at document level ([axes_entities_concatenation]); the values for ONE
+   parallel axis on a variable of the persons without set-input rule
+   ([axes_values_single_axis_partial] below: the strided store [set_strided] is characterised
+   block by block and the flush is shown to store each buffered array once).  Missing for
+   [axes_values_concatenation_statement]: several parallel axes and perpendicular dimensions
+   (the mesh coordinates of [apply_dims]), an axis on a variable of a group kind (needs the
+   array-length invariant of [build_spec]'s group part at the expansion), the clause for the
+   variables that no axis names, and variables with a set-input rule (commutation of the
+   divide / dispatch rules with the repetition of the arrays).  The correspondence check
+   compares every axes document with its expanded copies, on the implementation and the model. *)
+
+(** One parallel axis on a variable of the persons (no set-input rule), its index within the
+    persons: the array of the axis variable at the axis period holds, in copy [c], the [c]-th
+    value of the axis (converted to the variable's type) at the axis index, and elsewhere what
+    the simulation built without the axes holds (the default when it holds nothing there). *)
+Theorem axes_values_single_axis_partial : forall x s doc dims a sim base persons v t p,
+  NoDup (plurals s) -> NoDup (singulars s) ->
+  aget "axes" doc = Some dims -> dims <> JNull -> parse_dims dims = Ok [[a]] ->
+  build_from_entities x s doc = Ok sim ->
+  build_from_entities x s (aremove "axes" doc) = Ok base ->
+  aget (e_plural (s_person s)) (aremove "axes" doc) = Some (JObj persons) ->
+  find_var (a_name a) (s_vars s) = Some v -> v_entity v = e_key (s_person s) -> no_rule v ->
+  a_period a = Some t -> canon_key (tok x t) = Ok p ->
+  (Z.to_nat (a_index a) < List.length persons)%nat ->
+  let cells := Z.to_nat (a_count a) in
+  let n := List.length persons in
+  let vals := linspace (a_min a) (a_max a) (a_count a) in
+  exists pop rest bpop brest h arr,
+    sim = pop :: rest /\ base = bpop :: brest /\
+    p_entity pop = e_key (s_person s) /\ p_entity bpop = e_key (s_person s) /\
+    aget (a_name a) (p_holders pop) = Some h /\ hget h p = Some arr /\
+    forall c i, (c < cells)%nat -> (i < n)%nat ->
+      if Nat.eqb i (Z.to_nat (a_index a))
+      then exists q w, nth_error vals c = Some q /\ cell_of_q v q = Ok w
+                       /\ nth_error arr (c * n + i) = Some w
+      else nth_error arr (c * n + i)
+           = match (match aget (a_name a) (p_holders bpop) with Some bh => hget bh p | None => None end) with
+             | Some barr => nth_error barr i
+             | None => Some (v_default v)
+             end.
+Proof. exact axes_single_person_axis. Qed.
+Print Assumptions axes_values_single_axis_partial.
 
 Theorem axes_entities_partial :
   (forall (l : list string) cells c i id,
